@@ -26,7 +26,7 @@ func init() {
 		rng := rand.New(rand.NewSource(seed*1013 + 8))
 		n := 120
 		if tier == "thorough" {
-			n = 4000
+			n = 15000
 		}
 		for i := 0; i < n; i++ {
 			cfg := WorldCfg{Dir: allDirs[rng.Intn(len(allDirs))], CapFrames: []int{0, 0, 1, 8}[rng.Intn(4)]}
@@ -168,6 +168,7 @@ func famIDStorm(w *World, c *Case, rng *rand.Rand) {
 	}
 	w.CheckDelivery()
 	w.CheckTables(w.TCh, 0, 0, true, "after id storm")
+	w.CheckIdle("after id storm")
 	w.Finish()
 }
 
@@ -241,5 +242,6 @@ func famStartCancel(w *World, c *Case, rng *rand.Rand) {
 		w.Violate("C08", "rpc-invoked-twice", "rpc sc resulted in %d handler invocations", n)
 	}
 	w.CheckTables(w.TCh, 0, 0, true, "after cancel at start")
+	w.CheckIdle("after cancel at start")
 	w.Finish()
 }
